@@ -47,6 +47,48 @@ def Prov (U : Universe) (P : Problem) (org : Org) (cl : ACl) : Prop :=
       cl.lits = [(v, false)]
   | .learnt _ => True
 
+/-- The fact a clause kind states, apart from the clause's literals: a `requires p r` belongs to `p`'s requirements, a
+    `constrains p c vs` to its constrains and `c` does not match, lock / exclusion clauses reflect the package's lock /
+    exclusion list or unknown dependencies, a forbid clause is about a solvable of the named package. This is all that
+    `Conflict::graph` reads off a clause. -/
+def KindTrue (U : Universe) (P : Problem) (org : Org) : Kind → Prop
+  | .root => True
+  | .learnt _ => True
+  | .requires p r => ∃ reqs cons, oParentDeps U P org p = some (reqs, cons) ∧ r ∈ reqs
+  | .constrains p c vs => (∃ reqs cons, oParentDeps U P org p = some (reqs, cons) ∧ vs ∈ cons) ∧
+      ∃ t, oSolv org c = some t ∧ t ∈ U.nonMatching vs
+  | .forbid a _ _ n => ∃ s, oSolv org a = some s ∧ U.nameOf s = n
+  | .lock l o => ∃ ls os p, oSolv org l = some ls ∧ oSolv org o = some os ∧
+      U.pkg? (U.nameOf os) = some p ∧ p.locked = some ls ∧ os ≠ ls
+  | .excluded v reason => ∃ s, oSolv org v = some s ∧
+      (U.deps s = .unknown reason ∨ ∃ p, U.pkg? (U.nameOf s) = some p ∧ (s, reason) ∈ p.excluded)
+
+theorem prov_kindTrue (U : Universe) (P : Problem) (org : Org) (cl : ACl) (h : Prov U P org cl) : KindTrue U P org cl.kind := by
+  unfold Prov at h
+  cases hk : cl.kind with
+  | root => trivial
+  | learnt i => trivial
+  | requires p r =>
+    rw [hk] at h
+    obtain ⟨reqs, cons, vars, h1, h2, _⟩ := h
+    exact ⟨reqs, cons, h1, h2⟩
+  | constrains p c vs =>
+    rw [hk] at h
+    obtain ⟨reqs, cons, t, h1, h2, h3, h4, _⟩ := h
+    exact ⟨⟨reqs, cons, h1, h2⟩, t, h3, h4⟩
+  | forbid a hh pos n =>
+    rw [hk] at h
+    obtain ⟨s, h1, _, h3, _⟩ := h
+    exact ⟨s, h1, h3⟩
+  | lock l o =>
+    rw [hk] at h
+    obtain ⟨ls, os, p, h1, h2, h3, h4, h5, _⟩ := h
+    exact ⟨ls, os, p, h1, h2, h3, h4, h5⟩
+  | excluded v reason =>
+    rw [hk] at h
+    obtain ⟨s, h1, h2, _⟩ := h
+    exact ⟨s, h1, h2⟩
+
 structure SInv (U : Universe) (P : Problem) (st : St) : Prop where
   rootOrigin : st.origins.lookup 0 = some .root
   solvInj : ∀ v v' s, st.origins.lookup v = some (.solvable s) → st.origins.lookup v' = some (.solvable s) → v = v'
